@@ -56,6 +56,7 @@ func main() {
 	maxSteps := fs.Int64("max-steps", 20000000, "per path")
 	maxUnwind := fs.Int("max-unwind", 1<<22, "back edges per frame")
 	preempt := fs.Int("preempt", 0, "preemption budget")
+	maxSched := fs.Int("max-sched-points", 600, "scheduling points per path at which a preemption is considered")
 	twin := fs.Bool("twin", false, "vacuity twin: every property assertion replaced by false")
 	verbose := fs.Bool("v", false, "verbose")
 	gobin := fs.String("gobin", "/opt/veriftools/go1.26.8/bin", "directory of the go tool used for loading")
@@ -102,6 +103,7 @@ func main() {
 	cfg.MaxSteps = *maxSteps
 	cfg.MaxUnwind = *maxUnwind
 	cfg.Preempt = *preempt
+	cfg.MaxSchedPoints = *maxSched
 	cfg.Twin = *twin
 	cfg.Verbose = *verbose
 	cfg.StopOnViolation = *stopFirst
